@@ -176,10 +176,11 @@ where
 {
     fn reinit(self: Box<Self>, cfg: &Config, clk: &mut SimClock) -> Result<Box<dyn Dut<'a> + 'a>, InitFail> {
         let (di, model, rst) = (*self).release();
-        let b = builder_with(cfg, model, di.rebuild());
+        let b = Builder::new(model, di.rebuild());
         match rst {
-            Some(r) => finish(b.reset_pin(r).init(clk)),
-            None => finish::<DI, M, NoResetPin>(b.init(clk)),
+            Some(r) if cfg.builder_order & 0x8000 != 0 => finish(apply_setters(b.reset_pin(r), cfg).init(clk)),
+            Some(r) => finish(apply_setters(b, cfg).reset_pin(r).init(clk)),
+            None => finish::<DI, M, NoResetPin>(apply_setters(b, cfg).init(clk)),
         }
     }
     fn set_pixel(&mut self, x: u16, y: u16, c: u32) -> DR {
@@ -291,6 +292,37 @@ impl<const W: u16, const H: u16, C: RgbColor> Model for SimModel<W, H, C> {
         let madctl = SetAddressMode::from(options);
         di.write_command(madctl)?;
         let pf = PixelFormat::with_all(BitsPerPixel::from_rgb_color::<C>());
+        di.write_command(SetPixelFormat::new(pf))?;
+        di.write_command(SetInvertMode::new(options.invert_colors))?;
+        di.write_command(ExitSleepMode)?;
+        delay.delay_us(120_000);
+        di.write_command(SetDisplayOn)?;
+        Ok(madctl)
+    }
+}
+
+/// External model of a panel that is hard-wired BGR and scanned bottom-to-top.
+pub struct SimModelHw<const W: u16, const H: u16>;
+
+impl<const W: u16, const H: u16> Model for SimModelHw<W, H> {
+    type ColorFormat = Rgb565;
+    const FRAMEBUFFER_SIZE: (u16, u16) = (W, H);
+
+    fn init<DELAY, DI>(
+        &mut self,
+        di: &mut DI,
+        delay: &mut DELAY,
+        options: &ModelOptions,
+    ) -> Result<SetAddressMode, ModelInitError<DI::Error>>
+    where
+        DELAY: DelayNs,
+        DI: Interface,
+    {
+        let madctl = SetAddressMode::from(options)
+            .with_color_order(ColorOrder::Bgr)
+            .with_refresh_order(RefreshOrder::new(VerticalRefreshOrder::BottomToTop, HorizontalRefreshOrder::LeftToRight));
+        di.write_command(madctl)?;
+        let pf = PixelFormat::with_all(BitsPerPixel::from_rgb_color::<Rgb565>());
         di.write_command(SetPixelFormat::new(pf))?;
         di.write_command(SetInvertMode::new(options.invert_colors))?;
         di.write_command(ExitSleepMode)?;
@@ -456,6 +488,23 @@ impl<K> Rebuild for TraceDi<K> {
         self
     }
 }
+impl<'b, K> Rebuild for &'b mut TraceDi<K> {
+    fn rebuild(self) -> Self {
+        self
+    }
+}
+
+/// interfaces owned by the executor so that a display can be built on `&mut DI`
+pub struct Borrowed {
+    pub s: TraceDi<KSerial>,
+    pub p8: TraceDi<KP8>,
+    pub p16: TraceDi<KP16>,
+}
+impl Borrowed {
+    pub fn new(w: &WorldRef) -> Self {
+        Borrowed { s: TraceDi::new(w), p8: TraceDi::new(w), p16: TraceDi::new(w) }
+    }
+}
 type Bus8 = Generic8BitBus<SimPin, SimPin, SimPin, SimPin, SimPin, SimPin, SimPin, SimPin>;
 type Bus16 = Generic16BitBus<SimPin, SimPin, SimPin, SimPin, SimPin, SimPin, SimPin, SimPin, SimPin, SimPin, SimPin, SimPin, SimPin, SimPin, SimPin, SimPin>;
 impl Rebuild for ParallelInterface<Bus8, SimPin, SimPin> {
@@ -493,23 +542,37 @@ where
     }
 }
 
-fn builder_with<DI, M>(cfg: &Config, model: M, di: DI) -> Builder<DI, M, NoResetPin>
+fn apply_setters<DI, M, RST>(mut b: Builder<DI, M, RST>, cfg: &Config) -> Builder<DI, M, RST>
 where
     DI: Interface,
     M: Model,
     M::ColorFormat: InterfacePixelFormat<DI::Word>,
+    RST: OutputPin,
 {
     let refresh = RefreshOrder::new(
         if cfg.refresh & 1 != 0 { VerticalRefreshOrder::BottomToTop } else { VerticalRefreshOrder::TopToBottom },
         if cfg.refresh & 2 != 0 { HorizontalRefreshOrder::RightToLeft } else { HorizontalRefreshOrder::LeftToRight },
     );
-    Builder::new(model, di)
-        .display_size(cfg.w, cfg.h)
-        .display_offset(cfg.ox, cfg.oy)
-        .orientation(to_orientation(cfg.orient))
-        .color_order(if cfg.bgr { ColorOrder::Bgr } else { ColorOrder::Rgb })
-        .invert_colors(if cfg.invert { ColorInversion::Inverted } else { ColorInversion::Normal })
-        .refresh_order(refresh)
+    // the builder's setters commute: call them in the order this case asks for
+    let mut idx: Vec<u8> = (0..6).collect();
+    let mut code = (cfg.builder_order & 0x7FFF) as usize;
+    let mut order = Vec::new();
+    for n in (1..=6usize).rev() {
+        let k = code % n;
+        code /= n;
+        order.push(idx.remove(k));
+    }
+    for s in order {
+        b = match s {
+            0 => b.display_size(cfg.w, cfg.h),
+            1 => b.display_offset(cfg.ox, cfg.oy),
+            2 => b.orientation(to_orientation(cfg.orient)),
+            3 => b.color_order(if cfg.bgr { ColorOrder::Bgr } else { ColorOrder::Rgb }),
+            4 => b.invert_colors(if cfg.invert { ColorInversion::Inverted } else { ColorInversion::Normal }),
+            _ => b.refresh_order(refresh),
+        };
+    }
+    b
 }
 
 fn init_with<'a, DI, M>(cfg: &Config, model: M, di: DI, w: &WorldRef, clk: &mut SimClock) -> Result<Box<dyn Dut<'a> + 'a>, InitFail>
@@ -519,20 +582,26 @@ where
     M: Model + 'a,
     M::ColorFormat: InterfacePixelFormat<DI::Word> + SimColor,
 {
-    let b = builder_with(cfg, model, di);
+    let b = Builder::new(model, di);
     if cfg.rst {
-        finish(b.reset_pin(SimPin::new(w, PIN_RST)).init(clk))
+        if cfg.builder_order & 0x8000 != 0 {
+            finish(apply_setters(b.reset_pin(SimPin::new(w, PIN_RST)), cfg).init(clk))
+        } else {
+            finish(apply_setters(b, cfg).reset_pin(SimPin::new(w, PIN_RST)).init(clk))
+        }
     } else {
-        finish::<DI, M, NoResetPin>(b.init(clk))
+        finish::<DI, M, NoResetPin>(apply_setters(b, cfg).init(clk))
     }
 }
 
-fn go_u8<'a, M>(model: M, cfg: &Config, w: &WorldRef, buf: &'a mut [u8], clk: &mut SimClock) -> Result<Box<dyn Dut<'a> + 'a>, InitFail>
+fn go_u8<'a, M>(model: M, cfg: &Config, w: &WorldRef, buf: &'a mut [u8], br: &'a mut Borrowed, clk: &mut SimClock) -> Result<Box<dyn Dut<'a> + 'a>, InitFail>
 where
     M: Model + 'a,
     M::ColorFormat: InterfacePixelFormat<u8> + SimColor,
 {
     match cfg.transport {
+        Transport::Trace(Kind::Serial) if cfg.by_ref => init_with(cfg, model, &mut br.s, w, clk),
+        Transport::Trace(Kind::P8) if cfg.by_ref => init_with(cfg, model, &mut br.p8, w, clk),
         Transport::Spi { .. } => {
             let di = SpiInterface::new(SimSpi { w: w.clone() }, SimPin::new(w, PIN_DC), buf);
             init_with(cfg, model, di, w, clk)
@@ -557,12 +626,13 @@ where
     }
 }
 
-fn go_u16<'a, M>(model: M, cfg: &Config, w: &WorldRef, clk: &mut SimClock) -> Result<Box<dyn Dut<'a> + 'a>, InitFail>
+fn go_u16<'a, M>(model: M, cfg: &Config, w: &WorldRef, br: &'a mut Borrowed, clk: &mut SimClock) -> Result<Box<dyn Dut<'a> + 'a>, InitFail>
 where
     M: Model + 'a,
     M::ColorFormat: InterfacePixelFormat<u16> + SimColor,
 {
     match cfg.transport {
+        Transport::Trace(Kind::P16) if cfg.by_ref => init_with(cfg, model, &mut br.p16, w, clk),
         Transport::Par16 => {
             let bus = Generic16BitBus::new((
                 SimPin::new(w, 0),
@@ -591,53 +661,54 @@ where
 }
 
 macro_rules! both {
-    ($m:expr, $cfg:expr, $w:expr, $buf:expr, $clk:expr) => {
+    ($m:expr, $cfg:expr, $w:expr, $buf:expr, $br:expr, $clk:expr) => {
         if $cfg.transport.bus16() {
-            go_u16($m, $cfg, $w, $clk)
+            go_u16($m, $cfg, $w, $br, $clk)
         } else {
-            go_u8($m, $cfg, $w, $buf, $clk)
+            go_u8($m, $cfg, $w, $buf, $br, $clk)
         }
     };
 }
 macro_rules! only8 {
-    ($m:expr, $cfg:expr, $w:expr, $buf:expr, $clk:expr) => {
+    ($m:expr, $cfg:expr, $w:expr, $buf:expr, $br:expr, $clk:expr) => {
         if $cfg.transport.bus16() {
             Err(InitFail::NoSuchPairing)
         } else {
-            go_u8($m, $cfg, $w, $buf, $clk)
+            go_u8($m, $cfg, $w, $buf, $br, $clk)
         }
     };
 }
 
 /// Build and initialise the display described by `cfg` on the world `w`.
-pub fn build<'a>(cfg: &Config, w: &WorldRef, buf: &'a mut [u8], clk: &mut SimClock) -> Result<Box<dyn Dut<'a> + 'a>, InitFail> {
+pub fn build<'a>(cfg: &Config, w: &WorldRef, buf: &'a mut [u8], br: &'a mut Borrowed, clk: &mut SimClock) -> Result<Box<dyn Dut<'a> + 'a>, InitFail> {
     use ModelId::*;
     match cfg.model {
-        ILI9341Rgb565 => both!(models::ILI9341Rgb565, cfg, w, buf, clk),
-        ILI9341Rgb666 => only8!(models::ILI9341Rgb666, cfg, w, buf, clk),
-        ILI9342CRgb565 => both!(models::ILI9342CRgb565, cfg, w, buf, clk),
-        ILI9342CRgb666 => only8!(models::ILI9342CRgb666, cfg, w, buf, clk),
-        ILI9486Rgb565 => both!(models::ILI9486Rgb565, cfg, w, buf, clk),
-        ILI9486Rgb666 => only8!(models::ILI9486Rgb666, cfg, w, buf, clk),
-        ILI9488Rgb565 => both!(models::ILI9488Rgb565, cfg, w, buf, clk),
-        ILI9488Rgb666 => only8!(models::ILI9488Rgb666, cfg, w, buf, clk),
-        ST7789 => both!(models::ST7789, cfg, w, buf, clk),
-        ST7735s => both!(models::ST7735s, cfg, w, buf, clk),
-        ST7796 => both!(models::ST7796, cfg, w, buf, clk),
-        GC9107 => both!(models::GC9107, cfg, w, buf, clk),
-        GC9A01 => both!(models::GC9A01, cfg, w, buf, clk),
-        RM67162 => both!(models::RM67162, cfg, w, buf, clk),
-        Sim1x1 => both!(SimModel::<1, 1, Rgb565>::new(), cfg, w, buf, clk),
-        Sim1x65535 => both!(SimModel::<1, 65535, Rgb565>::new(), cfg, w, buf, clk),
-        Sim65535x1 => both!(SimModel::<65535, 1, Rgb565>::new(), cfg, w, buf, clk),
-        Sim65535x65535 => both!(SimModel::<65535, 65535, Rgb565>::new(), cfg, w, buf, clk),
-        Sim255x257 => both!(SimModel::<255, 257, Rgb565>::new(), cfg, w, buf, clk),
-        Sim37x53 => both!(SimModel::<37, 53, Rgb565>::new(), cfg, w, buf, clk),
-        Sim46341x46342 => both!(SimModel::<46341, 46342, Rgb565>::new(), cfg, w, buf, clk),
-        Sim5x3 => both!(SimModel::<5, 3, Rgb565>::new(), cfg, w, buf, clk),
-        Sim3x5 => both!(SimModel::<3, 5, Rgb565>::new(), cfg, w, buf, clk),
-        Sim64x48Rgb666 => only8!(SimModel::<64, 48, Rgb666>::new(), cfg, w, buf, clk),
-        Sim2048x2048 => both!(SimModel::<2048, 2048, Rgb565>::new(), cfg, w, buf, clk),
+        ILI9341Rgb565 => both!(models::ILI9341Rgb565, cfg, w, buf, br, clk),
+        ILI9341Rgb666 => only8!(models::ILI9341Rgb666, cfg, w, buf, br, clk),
+        ILI9342CRgb565 => both!(models::ILI9342CRgb565, cfg, w, buf, br, clk),
+        ILI9342CRgb666 => only8!(models::ILI9342CRgb666, cfg, w, buf, br, clk),
+        ILI9486Rgb565 => both!(models::ILI9486Rgb565, cfg, w, buf, br, clk),
+        ILI9486Rgb666 => only8!(models::ILI9486Rgb666, cfg, w, buf, br, clk),
+        ILI9488Rgb565 => both!(models::ILI9488Rgb565, cfg, w, buf, br, clk),
+        ILI9488Rgb666 => only8!(models::ILI9488Rgb666, cfg, w, buf, br, clk),
+        ST7789 => both!(models::ST7789, cfg, w, buf, br, clk),
+        ST7735s => both!(models::ST7735s, cfg, w, buf, br, clk),
+        ST7796 => both!(models::ST7796, cfg, w, buf, br, clk),
+        GC9107 => both!(models::GC9107, cfg, w, buf, br, clk),
+        GC9A01 => both!(models::GC9A01, cfg, w, buf, br, clk),
+        RM67162 => both!(models::RM67162, cfg, w, buf, br, clk),
+        Sim1x1 => both!(SimModel::<1, 1, Rgb565>::new(), cfg, w, buf, br, clk),
+        Sim1x65535 => both!(SimModel::<1, 65535, Rgb565>::new(), cfg, w, buf, br, clk),
+        Sim65535x1 => both!(SimModel::<65535, 1, Rgb565>::new(), cfg, w, buf, br, clk),
+        Sim65535x65535 => both!(SimModel::<65535, 65535, Rgb565>::new(), cfg, w, buf, br, clk),
+        Sim255x257 => both!(SimModel::<255, 257, Rgb565>::new(), cfg, w, buf, br, clk),
+        Sim37x53 => both!(SimModel::<37, 53, Rgb565>::new(), cfg, w, buf, br, clk),
+        Sim46341x46342 => both!(SimModel::<46341, 46342, Rgb565>::new(), cfg, w, buf, br, clk),
+        Sim5x3 => both!(SimModel::<5, 3, Rgb565>::new(), cfg, w, buf, br, clk),
+        Sim3x5 => both!(SimModel::<3, 5, Rgb565>::new(), cfg, w, buf, br, clk),
+        Sim64x48Rgb666 => only8!(SimModel::<64, 48, Rgb666>::new(), cfg, w, buf, br, clk),
+        Sim2048x2048 => both!(SimModel::<2048, 2048, Rgb565>::new(), cfg, w, buf, br, clk),
+        SimHwBgr48x64 => both!(SimModelHw::<48, 64>, cfg, w, buf, br, clk),
     }
 }
 
